@@ -28,6 +28,22 @@ from vc.pyvc.interp import (MList, MDict, MSet, PyRaise, SymMethod, BoundMethod,
 
 # uninterpreted string functions (A-UNI)
 _ufs: dict = {}
+SEQ_AXIOM_LISTS: dict = {}
+
+
+def seq_axioms() -> list:
+    """has(elem(i)) for every index of every input list whose `has` predicate was used."""
+    from vc.sqlvc.encode import seq_has
+    out = []
+    for lst in SEQ_AXIOM_LISTS.values():
+        if lst.parents:
+            continue
+        i = z3.Int('i$has')
+        e = lst.at(i)
+        if isinstance(e, SV):
+            out.append(z3.ForAll([i], z3.Implies(lst.range_constraint(i), seq_has(lst, e.kind)(e.z)),
+                                 patterns=[e.z]))
+    return out
 
 
 def uf(name, *sorts):
@@ -754,6 +770,17 @@ def contains(it, container, x, node):
         if not is_sym(x) and not any(contains_sym(i) for i in items):
             return x in items
         return z_or(*[z_bool(equals(it, e, x, node)) for e in items])
+    if isinstance(container, SList) and isinstance(x, (SV, str, int)) and not isinstance(x, bool):
+        probe = container.at(z3.IntVal(0))
+        if isinstance(probe, SV):
+            # membership in an input list of scalars: the list's `has` predicate (the same one SQL `IN (?,...)`
+            # over this list is translated to); has(elem(i)) for every index is an axiom of the list
+            from vc.sqlvc.encode import seq_has
+            xv = lift(x, probe.kind) if not isinstance(x, SV) else x
+            if xv.kind == probe.kind:
+                core = seq_has(container, probe.kind)(xv.z)
+                SEQ_AXIOM_LISTS[container.name] = container
+                return z3.And(z3.Not(xv.none), core) if xv.none is not None else core
     if isinstance(container, (SeqBase, SSorted)):
         seq = it.to_seq(container)
         return seq.contains(lambda e: z_bool(equals(it, e, x, node)))
